@@ -5,6 +5,7 @@ FENCE_NOTE = ("Trusts: x86-64 Linux page protection and the fault error code (wr
               "and 20-40 line C models). Accesses inside mapped memory that is no arena slot are not observed.")
 
 ENGINES = [
+    {"name": "fmt", "path": "harness/fmt.c", "serves_properties": ["C11", "C09", "C01", "C02", "C03", "C04", "C05", "C08"], "kind_free_text": "narrow printf_s family driver: variadic dispatcher (vcall_gen.h), format grammar, libc differential"},
     {"name": "threads", "path": "harness/threads.c", "serves_properties": ["C12"], "kind_free_text": "thread stress + footprint monitor in common.h + TSan build"},
     {"name": "handlers", "path": "harness/handlers.c", "serves_properties": ["C13"], "kind_free_text": "handler-registration history executor with sequential model"},
     {"name": "erase", "path": "harness/erase/", "serves_properties": ["C18"], "kind_free_text": "victim/probe client matrix over optimisation levels and LTO"},
@@ -58,6 +59,12 @@ META = {
                   "with dmax/slen at, above and below the string lengths, and its answer compared with a reference computed on bounded "
                   "private copies; operands must be unchanged. Exhaustive inside the stated bounds, nothing beyond them.",
              note=FENCE_NOTE),
+ "C11": dict(technique="runtime monitoring: differential oracle against libc printf over a generated directive grammar, real variadic calls",
+             engine="fmt",
+             text="Every generated format is rendered by libc and by the 8 narrow entry points (buffers with dmax swept around the needed size, streams read back): "
+                  "text, count, fit/no-fit behaviour, stream vs buffer, and independence from earlier calls are compared. The engine deviates from C printf in many "
+                  "ways; those are listed as known findings keyed by root cause, so that a deviation outside the listed classes is still reported.",
+             note=FENCE_NOTE + " Known-finding classes of the formatting engine are coarse (root cause x conversion / value class): a new defect inside an already listed class is masked."),
  "C12": dict(technique="runtime monitoring: per-call snapshot of the loaded library's .data/.bss (footprint), multi-thread stress with thread-tagged expectations, ThreadSanitizer",
              engine="threads",
              text="Footprint (schedule independent): no call may change the library's own writable static storage other than the handler registrations. Interference: results of "
